@@ -36,6 +36,8 @@ const (
 	cerOKAcct      = "ok-acct-3"
 	cerNoHost      = "reject-no-origin-host"
 	cerUnsupported = "reject-unsupported-application"
+	cerVFlagApp    = "reject-application-avp-with-v-flag" // Auth-Application-Id carrying the V flag and a vendor id: not the AVP the CER grammar names
+	cerVFlagMember = "reject-vsa-member-with-v-flag"      // the same inside a Vendor-Specific-Application-Id group
 
 	codeCER = 257
 	codeDWR = 280
@@ -89,6 +91,11 @@ func (c *SMCase) cerBytes() []byte {
 		n = append(n, u32(259, 0x40, 3))
 	case cerUnsupported:
 		n = append(n, u32(258, 0x40, 999999))
+	case cerVFlagApp:
+		n = append(n, &refcodec.Node{Code: 258, Flags: 0xc0, Vendor: 10415, Payload: refcodec.U32(4)})
+	case cerVFlagMember:
+		n = append(n, &refcodec.Node{Code: 260, Flags: 0x40, Group: true, Children: []*refcodec.Node{
+			{Code: 258, Flags: 0xc0, Vendor: 10415, Payload: refcodec.U32(4)}, u32(266, 0x40, 10415)}})
 	}
 	if c.Inband {
 		n = append(n, u32(299, 0x40, 0))
@@ -264,7 +271,7 @@ func genReq(t *rapid.T, label string) Req {
 }
 
 func genSMBase(t *rapid.T) SMCase {
-	c := SMCase{Kind: rapid.SampledFrom([]string{cerOKAuth, cerOKAuth, cerOKAcct, cerOKAcct, cerNoHost, cerUnsupported}).Draw(t, "cer-kind")}
+	c := SMCase{Kind: rapid.SampledFrom([]string{cerOKAuth, cerOKAuth, cerOKAcct, cerOKAcct, cerNoHost, cerUnsupported, cerVFlagApp, cerVFlagMember}).Draw(t, "cer-kind")}
 	c.Inband = rapid.IntRange(0, 2).Draw(t, "inband") == 0
 	c.HostIPs = rapid.Bool().Draw(t, "host-ips")
 	c.Firmware = rapid.IntRange(0, 3).Draw(t, "firmware") == 0
